@@ -833,6 +833,18 @@ func c05Lexer(c *Ctx) {
 			}
 			nStart++
 			ok2 := (f == emit || f == ignore) && strings.HasSuffix(path(s.Val), ".pos")
+			if z, isZ := constInt(s.Val); isZ && z == 0 {
+				// re-initialisation: start and pos go back to 0 together (a reset method for reuse in place)
+				allInstrs(f, func(i2 ssa.Instruction) {
+					if s2, ok := i2.(*ssa.Store); ok && s2.Block() == s.Block() {
+						if fa2, ok := s2.Addr.(*ssa.FieldAddr); ok && fieldName(fa2) == "pos" && fa2.X == fa.X {
+							if z2, isZ2 := constInt(s2.Val); isZ2 && z2 == 0 {
+								ok2 = true
+							}
+						}
+					}
+				})
+			}
 			r.Ob("LEX-COVER", fmt.Sprintf("%s writes Lexer.start", relName(f)), t.Pos(s.Pos()), ok2, "the start of the next item may only move to the current position, by emit (after delivering the text) or ignore (skipping blanks)")
 		})
 	}
@@ -856,6 +868,161 @@ func c05Lexer(c *Ctx) {
 			}
 		})
 	}
+	// blind skips: `l.pos += K` with a constant K advances over K bytes nobody has read. That is sound only when the
+	// function is entered knowing that those K bytes are there: every reference to the function (a state function
+	// returned to the driver, or a call) is controlled by strings.HasPrefix(l.input[l.pos:], S) with len(S) == K, and
+	// nothing moves the position between that test and the hand-over. Otherwise the position can leave the input
+	// (a slice panic in next/emit) or a byte is dropped from the token stream.
+	posWrites := func(f *ssa.Function) bool { return false }
+	{
+		memo := map[*ssa.Function]int{} // 1 = no, 2 = yes, 3 = in progress
+		var pw func(f *ssa.Function) bool
+		pw = func(f *ssa.Function) bool {
+			if f == nil || len(f.Blocks) == 0 || f.Pkg == nil || f.Pkg.Pkg.Path() != pParser {
+				return false
+			}
+			switch memo[f] {
+			case 1, 3:
+				return false
+			case 2:
+				return true
+			}
+			memo[f] = 3
+			res := false
+			allInstrs(f, func(in ssa.Instruction) {
+				if s, ok := in.(*ssa.Store); ok {
+					if fa, ok := s.Addr.(*ssa.FieldAddr); ok && fieldName(fa) == "pos" && namedOf(fa.X.Type()) == "parser.Lexer" {
+						res = true
+					}
+				}
+				if cal := calleeOf(in); cal != nil && pw(cal) {
+					res = true
+				}
+			})
+			if res {
+				memo[f] = 2
+			} else {
+				memo[f] = 1
+			}
+			return res
+		}
+		posWrites = pw
+	}
+	// peekLike: one next() followed by one backup() and no other position change — the position is where it was
+	peekLike := func(f *ssa.Function) bool {
+		if f == nil || len(f.Blocks) != 1 {
+			return false
+		}
+		var seq []*ssa.Function
+		other := false
+		allInstrs(f, func(in ssa.Instruction) {
+			if cal := calleeOf(in); cal != nil && posWrites(cal) {
+				seq = append(seq, cal)
+			}
+			if st, ok := in.(*ssa.Store); ok && strings.HasSuffix(path(st.Addr), ".pos") {
+				other = true
+			}
+		})
+		return !other && len(seq) == 2 && seq[0] == next && seq[1] == backup
+	}
+	nSkip := 0
+	for _, f := range t.PkgFuncs(pParser) {
+		f := f
+		allInstrs(f, func(in ssa.Instruction) {
+			s, ok := in.(*ssa.Store)
+			if !ok {
+				return
+			}
+			fa, ok := s.Addr.(*ssa.FieldAddr)
+			if !ok || fieldName(fa) != "pos" || namedOf(fa.X.Type()) != "parser.Lexer" {
+				return
+			}
+			bo, ok := s.Val.(*ssa.BinOp)
+			if !ok || bo.Op != token.ADD {
+				return
+			}
+			k, isK := constInt(bo.Y)
+			if !isK {
+				k, isK = constInt(bo.X)
+			}
+			if !isK || k <= 0 {
+				return
+			}
+			nSkip++
+			// every reference to f
+			nRef, bad := 0, ""
+			for _, g := range t.PkgFuncs(pParser) {
+				var ops []*ssa.Value
+				allInstrs(g, func(site ssa.Instruction) {
+					ops = site.Operands(ops[:0])
+					uses := false
+					for _, o := range ops {
+						if o != nil && *o == ssa.Value(f) {
+							uses = true
+						}
+					}
+					if !uses {
+						return
+					}
+					nRef++
+					justified := false
+					for _, ec := range controlling(site.Block()) {
+						var hp *ssa.Call
+						if c1, isCall := ec.Cond.(*ssa.Call); isCall && ec.Pol && isCallTo(c1, "strings", "HasPrefix") && len(c1.Call.Args) == 2 {
+							pc, isC := c1.Call.Args[1].(*ssa.Const)
+							sl, isSl := c1.Call.Args[0].(*ssa.Slice)
+							if isC && pc.Value != nil && pc.Value.Kind() == constant.String && int64(len(constant.StringVal(pc.Value))) == k && isSl && sl.Low != nil && sl.High == nil &&
+								strings.HasSuffix(path(sl.X), ".input") && strings.HasSuffix(path(sl.Low), ".pos") {
+								hp = c1
+							}
+						}
+						// or: the next rune, looked at without consuming it, is a one-byte rune and one byte is skipped
+						if bo, isB := ec.Cond.(*ssa.BinOp); isB && ec.Pol && bo.Op == token.EQL && k == 1 {
+							for _, pair := range [][2]ssa.Value{{bo.X, bo.Y}, {bo.Y, bo.X}} {
+								if c1, isCall := pair[0].(*ssa.Call); isCall && peekLike(c1.Call.StaticCallee()) {
+									if cv, isK := constInt(pair[1]); isK && cv > 0 && cv < 0x80 {
+										hp = c1
+									}
+								}
+							}
+						}
+						if hp == nil {
+							continue
+						}
+						moved := false
+						allInstrs(g, func(w ssa.Instruction) {
+							if w == site || w == ssa.Instruction(hp) {
+								return
+							}
+							isW := false
+							if cal := calleeOf(w); cal != nil && posWrites(cal) && !peekLike(cal) {
+								isW = true
+							}
+							if st, ok := w.(*ssa.Store); ok && strings.HasSuffix(path(st.Addr), ".pos") {
+								isW = true
+							}
+							none := func(ssa.Instruction) bool { return false }
+							if isW && reachAvoid(hp, w, none) && reachAvoid(w, site, none) {
+								moved = true
+							}
+						})
+						if !moved {
+							justified = true
+						}
+					}
+					if !justified {
+						bad += fmt.Sprintf(" %s at %s", relName(g), t.Pos(site.Pos()))
+					}
+				})
+			}
+			why := fmt.Sprintf("%d references, each under strings.HasPrefix(input[pos:], S) with len(S) = %d and no position change in between", nRef, k)
+			if bad != "" {
+				why = "entered without knowing that the skipped bytes are there:" + bad
+			}
+			r.Ob("LEX-SKIP", fmt.Sprintf("%s advances the position by %d unread bytes", relName(f), k), t.Pos(s.Pos()), bad == "" && nRef > 0, why)
+		})
+	}
+	r.Extra["blind_skips"] = nSkip
 	// emit: text is input[start:pos], position is start
 	okTxt := false
 	allInstrs(emit, func(in ssa.Instruction) {
